@@ -208,9 +208,7 @@ func (a *Air) Process(op *types.Operation) (*types.Operation, error) {
 	if err := json.Unmarshal(reqBz, &req); err != nil {
 		return nil, err
 	}
-	// ProcessOperation opens the result file without O_TRUNC; remove a stale file like a
-	// careful operator would (same name = same operation id prefix)
-	_ = os.Remove(filepath.Join(a.Results, req.Filename()+"_result.json"))
+	// (a result file of the same operation may already be there: the machine overwrites it)
 	var path string
 	func() {
 		defer func() {
